@@ -129,7 +129,7 @@ func (s *meshState3) canon() string {
 	if built {
 		var sp []string
 		for _, v := range s.m.VertexSlice() {
-			sp = append(sp, bits3(v))
+			sp = append(sp, bits3(v.Add(model3d.Coord3D{}))) // -0 -> +0: which of the two equal keys the lazy index stores depends on map order (not owned here) and is invisible to the oracle
 		}
 		sort.Strings(sp)
 		key += "|" + strings.Join(sp, ";")
